@@ -653,22 +653,30 @@ Record stl_vars := {
 
 Definition maxsize : Z := 9223372036854775807.
 
-(* DataFile.__init__ on the 1024-byte GSI block *)
-Definition stl_init (cfg : stl_cfg) (gsi : list Z) (oracle : list sub_result) : stl_vars + outcome :=
+(* DataFile.__init__ on the 1024-byte GSI block: what it leaves in the instance *)
+Record stl_hdr := { h_fps : Z * Z; h_count : Z; h_offset : Z * Z; h_rows : option Z; h_teletext : bool }.
+
+Definition gsi_teletext (gsi : list Z) : bool := let d := nth 11 gsi 0 in (d =? 49) || (d =? 50).      (* ord(DSC) in (0x31, 0x32) *)
+Definition gsi_tcp_ints (gsi : list Z) : option (Z * Z * Z * Z) :=
+  let tcp := slice 256 8 gsi in
+  match bytes_int (slice 0 2 tcp), bytes_int (slice 2 2 tcp), bytes_int (slice 4 2 tcp), bytes_int (slice 6 2 tcp) with
+  | Some h, Some m, Some s, Some f => Some (h, m, s, f)
+  | _, _, _, _ => None
+  end.
+
+Definition stl_header (cfg : stl_cfg) (gsi : list Z) : stl_hdr + outcome :=
   if negb (Z.of_nat (length gsi) =? 1024) then inr (FormatError StructErr)           (* struct.unpack *)
   else
     let fps := dfc_fps (slice 3 8 gsi) in
-    let dsc := nth 11 gsi 0 in
-    let teletext := (dsc =? 49) || (dsc =? 50) in
+    let teletext := gsi_teletext gsi in
     let count := match bytes_int (slice 238 5 gsi) with Some n => n | None => maxsize end in      (* TNB *)
-    let tcp := slice 256 8 gsi in
     let start :=
       match cfg_start cfg with
       | StartNone => inl (0, 1)
       | StartTCP =>
-          match bytes_int (slice 0 2 tcp), bytes_int (slice 2 2 tcp), bytes_int (slice 4 2 tcp), bytes_int (slice 6 2 tcp) with
-          | Some h, Some m, Some s, Some f => inl (tc_frames fps h m s f * snd fps, fst fps)
-          | _, _, _, _ => inr (Internal AttributeErr)                                (* except ValueError: ... self.gsi.tcp *)
+          match gsi_tcp_ints gsi with
+          | Some (h, m, s, f) => inl (tc_frames fps h m s f * snd fps, fst fps)
+          | None => inr (Internal AttributeErr)                                      (* except ValueError: ... self.gsi.tcp *)
           end
       | StartTimecode h m s f => inl (tc_frames fps h m s f * snd fps, fst fps)
       end in
@@ -685,9 +693,15 @@ Definition stl_init (cfg : stl_cfg) (gsi : list Z) (oracle : list sub_result) : 
                             end
           | RowsInt n => if teletext then (Some 23, off) else (Some n, off)
           end in
-        inl {| t_fps := fps; t_count := count; t_offset := off; t_rows := rows; t_teletext := teletext; t_last_sn := None;
-               t_have_p := false; t_index := 0; t_oracle := oracle |}
+        inl {| h_fps := fps; h_count := count; h_offset := off; h_rows := rows; h_teletext := teletext |}
     end.
+
+Definition stl_vars_of (h : stl_hdr) (oracle : list sub_result) : stl_vars :=
+  {| t_fps := h_fps h; t_count := h_count h; t_offset := h_offset h; t_rows := h_rows h; t_teletext := h_teletext h; t_last_sn := None;
+     t_have_p := false; t_index := 0; t_oracle := oracle |}.
+
+Definition stl_init (cfg : stl_cfg) (gsi : list Z) (oracle : list sub_result) : stl_vars + outcome :=
+  match stl_header cfg gsi with inr o => inr o | inl h => inl (stl_vars_of h oracle) end.
 
 (* a / b < c / d for positive denominators *)
 Definition q_lt (a : Z * Z) (c : Z * Z) : bool := fst a * snd c <? fst c * snd a.
@@ -754,30 +768,30 @@ Fixpoint stl_loop (v : stl_vars) (bs : list (list Z)) : outcome :=
   | b :: rest => match stl_block v b with inr o => o | inl v' => stl_loop v' rest end
   end.
 
+Definition stl_blocks (file : list Z) : list (list Z) := chunks (length file) 128 (skipn 1024 file).
+
 Definition stl_run (cfg : stl_cfg) (oracle : list sub_result) (file : list Z) : outcome :=
   match stl_init cfg (firstn 1024 file) oracle with
   | inr o => o
-  | inl v => stl_loop v (chunks (length file) 128 (skipn 1024 file))
+  | inl v => stl_loop v (stl_blocks file)
   end.
 
-(* executable triggers of the recorded STL findings *)
-Definition gsi_ok (file : list Z) : bool := 1024 <=? Z.of_nat (length file).
-Definition stl_teletext (file : list Z) : bool := let d := nth 11 file 0 in (d =? 49) || (d =? 50).
-Definition trig_bad_tcp (cfg : stl_cfg) (file : list Z) : bool :=
+
+(* executable triggers of the recorded STL findings, on the GSI block [gsi = firstn 1024 file] and the TTI blocks *)
+Definition trig_bad_tcp (cfg : stl_cfg) (gsi : list Z) : bool :=
   match cfg_start cfg with
-  | StartTCP => let tcp := slice 256 8 file in
-                match bytes_int (slice 0 2 tcp), bytes_int (slice 2 2 tcp), bytes_int (slice 4 2 tcp), bytes_int (slice 6 2 tcp) with
-                | Some _, Some _, Some _, Some _ => false | _, _, _, _ => true end
+  | StartTCP => match gsi_tcp_ints gsi with Some _ => false | None => true end
   | _ => false
   end.
-Definition trig_bad_mnr (cfg : stl_cfg) (file : list Z) : bool :=
+(* stl-bad-mnr and stl-zero-row-count *)
+Definition trig_bad_mnr (cfg : stl_cfg) (gsi : list Z) : bool :=
   match cfg_rows cfg with
-  | RowsMNR => negb (stl_teletext file) && match bytes_int (slice 253 2 file) with None => true | Some n => n =? 0 end
-  | RowsInt n => negb (stl_teletext file) && (n =? 0)
+  | RowsMNR => negb (gsi_teletext gsi) && match bytes_int (slice 253 2 gsi) with None => true | Some n => n =? 0 end
+  | RowsInt n => negb (gsi_teletext gsi) && (n =? 0)
   | RowsNone => false
   end.
-Definition trig_zero_count (file : list Z) : bool :=
-  match bytes_int (slice 238 5 file) with Some n => n =? 0 | None => false end.
+Definition trig_zero_count (gsi : list Z) : bool :=
+  match bytes_int (slice 238 5 gsi) with Some n => n =? 0 | None => false end.
 (* stl-cumulative-block-first: the first block that reaches the paragraph code has a cumulative status other than 0 / 1 *)
 Fixpoint first_effective_cs (fps offset : Z * Z) (bs : list (list Z)) : option Z :=
   match bs with
@@ -785,9 +799,9 @@ Fixpoint first_effective_cs (fps offset : Z * Z) (bs : list (list Z)) : option Z
   | b :: rest => if block_effective fps offset b then Some (nth 4 b 0) else first_effective_cs fps offset rest
   end.
 Definition trig_cum_first (cfg : stl_cfg) (file : list Z) : bool :=
-  match stl_init cfg (firstn 1024 file) [] with
+  match stl_header cfg (firstn 1024 file) with
   | inr _ => false
-  | inl v => match first_effective_cs (t_fps v) (t_offset v) (chunks (length file) 128 (skipn 1024 file)) with
+  | inl h => match first_effective_cs (h_fps h) (h_offset h) (stl_blocks file) with
              | Some cs => negb (cs_starts cs)
              | None => false
              end
